@@ -63,7 +63,7 @@ var violations = []violation{
 		return true
 	}},
 	{"unknown-ordering", func(r *Rng, b J, q *Req) bool {
-		withBias(r, b, q, "criteriaOmission")["ordering"] = "noSuchOrdering"
+		withBias(r, b, q, []string{"criteriaOmission", "preferenceReversal"}[r.Intn(2)])["ordering"] = []string{"noSuchOrdering", " ", "\t", "Weakest", "weakest "}[r.Intn(5)]
 		return true
 	}},
 	{"unknown-fatigue-function", func(r *Rng, b J, q *Req) bool {
